@@ -103,7 +103,8 @@ where
 
 pub fn permute<E: FieldElement>(v: &mut [E]) {
     let n = v.len();
-    let num_batches = rayon::current_num_threads().next_power_of_two();
+    // there cannot be more batches than elements (both numbers are powers of two)
+    let num_batches = core::cmp::min(rayon::current_num_threads().next_power_of_two(), n);
     let batch_size = n / num_batches;
     rayon::scope(|s| {
         for batch_idx in 0..num_batches {
